@@ -27,6 +27,7 @@ type TimedCase struct {
 	J         int    `json:"J"`
 	Pat       string `json:"pat"`
 	Horizon   int    `json:"horizon"`
+	Post      string `json:"post"` // "none" | "stranger" | "resume": what follows the traffic
 	Hellos    int    `json:"hellos"`
 	MaxHellos int    `json:"maxhellos"`
 }
@@ -49,26 +50,42 @@ type TimedEvent struct {
 	Unknown   int    `json:"unknown"`
 	Replayed  int    `json:"replayed"`
 	StallMs   int    `json:"stall_ms"`
-	Panic     bool   `json:"panic"`
-	PanicV    string `json:"panicv"`
+	Ticks     int    `json:"ticks"` // real duration of the traffic phase, in ticks (>= horizon; larger on a busy machine)
+	Post      string `json:"post"`
+	// stranger phase (ground truth from the harness: it knows which channel holds which key)
+	ToStranger    int    `json:"to_stranger"`   // payloads of a that the stranger's channel handed up
+	FromStranger  int    `json:"from_stranger"` // payloads of the stranger that a handed up
+	StrangerSent  int    `json:"stranger_sent"` // Sends of a / the stranger that returned nil in the stranger phase
+	StrangerSentA int    `json:"stranger_sent_a"`
+	RkChanged     bool   `json:"rk_changed"` // a.RemoteKey() is no longer b's key
+	ResumeSends   int    `json:"resume_sends"`
+	ResumeFail    int    `json:"resume_fail"`
+	Panic         bool   `json:"panic"`
+	PanicV        string `json:"panicv"`
 }
 
 const tick = 25 * time.Millisecond
 
 func runTimed(c *TimedCase) (ev TimedEvent) {
-	ev = TimedEvent{Ev: "timed", Beh: c.ID, K: c.K, R: c.R, J: c.J, Pat: c.Pat, MaxHellos: c.MaxHellos, Model: c.Hellos,
+	if c.Post == "" {
+		c.Post = "none"
+	}
+	ev = TimedEvent{Ev: "timed", Beh: c.ID, K: c.K, R: c.R, J: c.J, Pat: c.Pat, Post: c.Post, MaxHellos: c.MaxHellos, Model: c.Hellos,
 		Kms: int(time.Duration(c.K) * tick / time.Millisecond)}
 	defer func() {
 		if x := recover(); x != nil {
 			ev.Panic, ev.PanicV = true, fmt.Sprint(x)
 		}
 	}()
-	keys := map[string]ed25519.PrivateKey{"a": attacker.TestKey(0), "b": attacker.TestKey(1)}
+	keys := map[string]ed25519.PrivateKey{"a": attacker.TestKey(0), "b": attacker.TestKey(1), "c": attacker.TestKey(2)}
 	var mu sync.Mutex
 	chans := map[string]*p2pke.Channel{}
 	hellos := map[string]bool{}
 	var firstData [][]byte // one early ciphertext per distinct sender/session epoch, replayed at the end
 	got := map[string]int{}
+	gotBy := map[string]int{}                                // receiving channel + "<" + payload
+	route := map[string]string{"a": "a", "b": "b", "c": "c"} // who answers at a peer name
+	cut := map[string]bool{}                                 // endpoints whose output goes nowhere any more
 	sent := map[string]bool{}
 	mk := func(name, peer string) *p2pke.Channel {
 		return p2pke.NewChannel(p2pke.ChannelConfig{
@@ -84,13 +101,21 @@ func runTimed(c *TimedCase) (ev TimedEvent) {
 				if typeOf(x) == "DATA" && len(firstData) < 64 {
 					firstData = append(firstData, append([]byte(peer+":"), x...))
 				}
-				dst := chans[peer]
+				dst := chans[route[peer]]
+				dstName := route[peer]
+				if cut[name] {
+					dst = nil
+				}
 				mu.Unlock()
+				if dst == nil {
+					return
+				}
 				go func() { // reliable, prompt network
 					out, _ := dst.Deliver(nil, x)
 					if out != nil {
 						mu.Lock()
 						got[string(out)]++
+						gotBy[dstName+"<"+string(out)]++
 						mu.Unlock()
 					}
 				}()
@@ -114,6 +139,7 @@ func runTimed(c *TimedCase) (ev TimedEvent) {
 	}
 	var wg sync.WaitGroup
 	last := time.Now()
+	start := last
 	for i := 0; i < c.Horizon; i++ {
 		for _, s := range senders {
 			payload := fmt.Sprintf("T:%s:%d:%d:0123456789", s, c.ID, i)
@@ -143,6 +169,10 @@ func runTimed(c *TimedCase) (ev TimedEvent) {
 	}
 	wg.Wait()
 	time.Sleep(30 * time.Millisecond)
+	ev.Ticks = int((time.Since(start) + tick - 1) / tick)
+	mu.Lock()
+	ev.Hellos = len(hellos)
+	mu.Unlock()
 	// replay early ciphertexts of every epoch (sessions have rotated meanwhile): none may be handed up again
 	mu.Lock()
 	fd := firstData
@@ -158,9 +188,84 @@ func runTimed(c *TimedCase) (ev TimedEvent) {
 			mu.Unlock()
 		}
 	}
+	if c.Post == "stranger" || c.Post == "resume" {
+		// nothing is sent and nothing gets through (so the rekey timers cannot renew anything either) until every
+		// established session of both endpoints has expired
+		mu.Lock()
+		cut["a"], cut["b"] = true, true
+		mu.Unlock()
+		time.Sleep(time.Duration(c.J+c.K+2) * tick)
+		mu.Lock()
+		cut["a"] = false
+		cut["b"] = c.Post == "stranger"
+		mu.Unlock()
+		trySend := func(ch *p2pke.Channel, payload string, d time.Duration) bool {
+			mu.Lock()
+			sent[payload] = true
+			mu.Unlock()
+			ctx, cf := context.WithTimeout(context.Background(), d)
+			defer cf()
+			return ch.Send(ctx, p2p.IOVec{[]byte(payload)}) == nil
+		}
+		if c.Post == "resume" {
+			for i := 0; i < 3; i++ {
+				for _, s := range senders {
+					ev.ResumeSends++
+					if !trySend(chans[s], fmt.Sprintf("R:%s:%d:%d:0123456789", s, c.ID, i), time.Second) {
+						ev.ResumeFail++
+					}
+				}
+			}
+			time.Sleep(30 * time.Millisecond)
+		} else {
+			// a party with another key (which AcceptKey accepts) takes b's place: "b" as seen by a is now c, and c talks to a
+			cch := mk("c", "a")
+			mu.Lock()
+			chans["c"] = cch
+			route["b"] = "c"
+			mu.Unlock()
+			defer cch.Close()
+			var swg sync.WaitGroup
+			for i := 0; i < 3; i++ { // several attempts: each one runs expireSessions once more
+				for _, who := range []string{"a", "c"} {
+					swg.Add(1)
+					go func(who string, i int) {
+						defer swg.Done()
+						mu.Lock()
+						ch := chans[who]
+						mu.Unlock()
+						if trySend(ch, fmt.Sprintf("S:%s:%d:%d:0123456789", who, c.ID, i), 250*time.Millisecond) {
+							mu.Lock()
+							ev.StrangerSent++
+							if who == "a" {
+								ev.StrangerSentA++
+							}
+							mu.Unlock()
+						}
+					}(who, i)
+				}
+				swg.Wait()
+			}
+			time.Sleep(30 * time.Millisecond)
+			rk := chans["a"].RemoteKey()
+			want := attacker.X509Public(keys["b"])
+			ev.RkChanged = !x509.EqualPublicKeys(&rk, &want)
+			mu.Lock()
+			for k := range gotBy {
+				i := bytes.IndexByte([]byte(k), '<')
+				recv, payload := k[:i], k[i+1:]
+				if recv == "c" && len(payload) > 2 && (payload[:2] == "S:" || payload[:2] == "T:") && payload[2] == 'a' {
+					ev.ToStranger++
+				}
+				if recv == "a" && len(payload) > 3 && payload[:3] == "S:c" {
+					ev.FromStranger++
+				}
+			}
+			mu.Unlock()
+		}
+	}
 	mu.Lock()
 	defer mu.Unlock()
-	ev.Hellos = len(hellos)
 	for p, n := range got {
 		ev.Received++
 		if n > 1 {
